@@ -28,7 +28,7 @@ ENV.pop("RUSTUP_TOOLCHAIN", None)
 
 PROFILE_ASSUMPTIONS = [
     "profile(a): `tracing` replaced by a no-op crate (Kani ICEs on tracing call sites); logging is the subject of no property",
-    "profile(b): binrw/binrw_derive 0.14.2 vendored with reporting code reduced: with_context/with_message identity, recursive Error variants Backtrace/EnumErrors removed, data-enum reader forgets per-variant errors, count_with integer fast paths replaced by the generic element path; which error VALUE is returned is outside every claim, whether one is returned is not",
+    "profile(b): binrw/binrw_derive 0.14.2 vendored with reporting code reduced: with_context/with_message identity, recursive Error variants Backtrace/EnumErrors removed, data-enum reader forgets per-variant errors, magic mismatch reported as NoVariantMatch instead of BadMagic{Box<dyn Debug>}, count_with integer fast paths replaced by the generic element path; which error VALUE is returned is outside every claim, whether one is returned is not",
     "trusted: rustc/Kani MIR->goto translation, CBMC 6.11, CaDiCaL; Kani's sequential models of alloc/memcpy; std/bytes/indexmap are executed as compiled, not modelled",
     "every harness result is bounded by its #[kani::unwind] value with unwinding assertions ON: a too-small bound is reported as inconclusive, never as success",
 ]
@@ -385,10 +385,11 @@ def write_evidence(prop, tier, seed, results, wall, violations, notes, harnesses
             "notes": notes,
             "traces_validated_against_impl": len([n for n in notes if n.startswith("replayed")]),
         },
-        "assumptions": PROFILE_ASSUMPTIONS + registry.PROPERTY_NOTES.get(prop, {}).get("assumptions", []),
+        "assumptions": PROFILE_ASSUMPTIONS + [profile_validation_note()] + registry.PROPERTY_NOTES.get(prop, {}).get("assumptions", []),
     }
-    os.makedirs(os.path.join(VERIF, "evidence"), exist_ok=True)
-    with open(os.path.join(VERIF, "evidence", prop + ".json"), "w") as f:
+    evdir = os.environ.get("VERIF_EVIDENCE_DIR", os.path.join(VERIF, "evidence"))
+    os.makedirs(evdir, exist_ok=True)
+    with open(os.path.join(evdir, prop + ".json"), "w") as f:
         json.dump(ev, f, indent=1)
 
 
@@ -455,7 +456,7 @@ def check_property(prop, tier, only=None, keep=False, jobs=None):
             if not tests:
                 inconclusive.append("%s: counterexample for %s but no concrete playback could be produced" % (h.name, descs))
                 continue
-            rdir = os.path.join(VERIF, "evidence", "replay")
+            rdir = os.path.join(os.environ.get("VERIF_EVIDENCE_DIR", os.path.join(VERIF, "evidence")), "replay")
             os.makedirs(rdir, exist_ok=True)
             first_unknown = None
             for idx, (d, k) in enumerate(match_known(known, prop, h.name, descs)):
@@ -529,6 +530,37 @@ def replay(path):
         shutil.rmtree(work, ignore_errors=True)
 
 
+def validate_profile(work):
+    """Serval-style validation of the trusted base: the repository's own test suite must pass with the
+    profile's binrw/binrw_derive substituted (tracing's stand-in only removes logging)."""
+    snap = os.path.join(work, "repo")
+    if not os.path.exists(snap):
+        snapshot_repo(snap)
+    prof = os.path.join(VERIF, "profile")
+    cmd = ["cargo", "test", "-p", "insim", "-p", "insim_core", "-p", "insim_pth", "-p", "insim_smx", "--no-fail-fast", "--offline",
+           "--config", 'patch.crates-io.binrw.path="%s/binrw"' % prof,
+           "--config", 'patch.crates-io.binrw_derive.path="%s/binrw_derive"' % prof]
+    env = dict(ENV, CARGO_TARGET_DIR=os.path.join(work, "pv_target"))
+    logfile = os.path.join(work, "logs", "profile_validation.log")
+    rc, killed, wall, _ = run_cmd(cmd, snap, 1800, logfile, env=env, limit=False)
+    text = open(logfile, errors="replace").read()
+    passed = len(re.findall(r"^test .* \.\.\. ok$", text, re.M))
+    failed = len(re.findall(r"^test .* \.\.\. FAILED$", text, re.M))
+    res = {"passed": passed, "failed": failed, "exit": rc, "wall_s": round(wall, 1), "at": time.strftime("%Y-%m-%dT%H:%M:%SZ", time.gmtime())}
+    os.makedirs(os.path.join(VERIF, ".cache"), exist_ok=True)
+    json.dump(res, open(os.path.join(VERIF, ".cache", "profile_validation.json"), "w"))
+    log("setup: profile validation: %d passed, %d failed (exit %d)" % (passed, failed, rc))
+    return rc == 0 and failed == 0 and passed >= 50
+
+
+def profile_validation_note():
+    p = os.path.join(VERIF, ".cache", "profile_validation.json")
+    if not os.path.exists(p):
+        return "profile validation (repository suite on the vendored binrw): not run in this sandbox state (run setup_cmd)"
+    r = json.load(open(p))
+    return "profile validation: repository suite on the vendored binrw/binrw_derive: %d passed, %d failed (%s)" % (r["passed"], r["failed"], r["at"])
+
+
 def setup():
     """Build the seed target directory (third-party dependencies + Kani's std) once. Purely a cache:
     checks work without it and always recompile the four repository crates from a fresh snapshot."""
@@ -549,6 +581,9 @@ def setup():
         os.makedirs(os.path.dirname(SEED_DIR), exist_ok=True)
         shutil.move(tdir, SEED_DIR)
         log("setup: seed target dir built in %.0fs (%s)" % (wall, SEED_DIR))
+        if not validate_profile(work):
+            log("setup: PROFILE VALIDATION FAILED - the vendored binrw does not behave like the stock one on the repository's own tests")
+            return 2
         return 0
     finally:
         shutil.rmtree(work, ignore_errors=True)
